@@ -955,6 +955,9 @@ def run(prog, rep, tier):
              '(force_prepare_evolve after update_time_parameter; env.clear() with the basis expansion)')
     if check_cache_invalidate(prog, rep) < 2:
         raise AnalysisError('CACHE-invalidate: reinit_model / prepare_evolve not recognised')
+    rep.rule('NORM-renorm-use', 'a factor norm(S) multiplied into psi.norm is divided out of S before any further use of S in the same update')
+    if check_renorm_use(prog, rep) < 2:
+        raise AnalysisError('NORM-renorm-use: single-site TDVP updates not recognised')
     rep.rule('TROTTER-order', 'order conditions of the fourth-order Suzuki scheme on the folded literals')
     check_trotter_order(prog, rep)
     return rep.finish(
@@ -966,6 +969,83 @@ def run(prog, rep, tier):
         'TEBD/ExpMPO/TDVP, and truncation-error flow. Convergence order is not decided.' % (ob, di),
         proof={'obligations': ob, 'discharged': di, 'exhaustive': True,
                'checker_cmd': './check C14', 'trusted_base': ['sa/linform.py', 'python ast']})
+
+
+# ------------------------------------------------------------------ NORM-renorm-use
+_NORM_FUNCS = ('npc.norm', 'np.linalg.norm', 'norm', 'np_conserved.norm')
+
+
+def check_renorm_use(prog, rep):
+    """`renorm = norm(S); psi.norm *= renorm` moves the factor `renorm` from the wavefunction into
+    the scalar psi.norm.  The factor is then accounted for exactly once only if every later use of
+    S in that update is of the normalised S: an in-place/rebinding normalisation `S /= renorm`
+    (`S = S / renorm`) precedes the use, or the use itself is `S / renorm`."""
+    n = 0
+    for rel in ('tenpy/algorithms/tdvp.py', 'tenpy/algorithms/tebd.py',
+                'tenpy/algorithms/mpo_evolution.py', 'tenpy/algorithms/purification.py'):
+        m = prog.module(rel)
+        for q, f in sorted(m.functions.items()):
+            facs = []
+            for st in ast.walk(f):
+                if isinstance(st, ast.AugAssign) and isinstance(st.op, ast.Mult) and \
+                        isinstance(st.target, ast.Attribute) and st.target.attr == 'norm' and \
+                        isinstance(st.value, ast.Name):
+                    facs.append((st, st.value.id))
+            for st, X in facs:
+                # definition of X as the norm of a local V
+                dfn = None
+                for a in ast.walk(f):
+                    if isinstance(a, ast.Assign) and len(a.targets) == 1 and \
+                            isinstance(a.targets[0], ast.Name) and a.targets[0].id == X and \
+                            isinstance(a.value, ast.Call) and call_name(a.value) in _NORM_FUNCS \
+                            and a.value.args and isinstance(a.value.args[0], ast.Name):
+                        dfn = a
+                if dfn is None:
+                    continue
+                V = dfn.value.args[0].id
+                n += 1
+                rep.instance('NORM-renorm-use', {'function': q, 'factor': X, 'of': V})
+
+                def is_div(e):
+                    return isinstance(e, ast.BinOp) and isinstance(e.op, ast.Div) and \
+                        isinstance(e.left, ast.Name) and e.left.id == V and \
+                        isinstance(e.right, ast.Name) and e.right.id == X
+                normaliser = None
+                for b in f.body:
+                    if isinstance(b, ast.AugAssign) and isinstance(b.op, ast.Div) and \
+                            isinstance(b.target, ast.Name) and b.target.id == V and \
+                            isinstance(b.value, ast.Name) and b.value.id == X:
+                        normaliser = b
+                    elif isinstance(b, ast.Assign) and len(b.targets) == 1 and \
+                            isinstance(b.targets[0], ast.Name) and b.targets[0].id == V and \
+                            is_div(b.value):
+                        normaliser = b
+                    if normaliser is not None:
+                        break
+                if normaliser is not None and normaliser.lineno < dfn.lineno:
+                    normaliser = None
+                parents = {}
+                for a in ast.walk(f):
+                    for c in ast.iter_child_nodes(a):
+                        parents[c] = a
+                for a in ast.walk(f):
+                    if not (isinstance(a, ast.Name) and a.id == V and isinstance(a.ctx, ast.Load)):
+                        continue
+                    if a.lineno <= dfn.lineno:
+                        continue
+                    if normaliser is not None and (
+                            normaliser.lineno <= a.lineno <= (normaliser.end_lineno or 0)):
+                        continue
+                    if normaliser is not None and a.lineno > normaliser.lineno:
+                        continue
+                    if is_div(parents.get(a)):
+                        continue
+                    rep.violation(
+                        'NORM-renorm-use', rel, q, 'raw-use:%s:%s' % (V, X),
+                        '`%s = norm(%s)` is moved into psi.norm (`norm *= %s`), but `%s` is used '
+                        'here without having been divided by it: the factor is counted twice '
+                        '(psi.norm of a non-unitary step is wrong)' % (X, V, X, V), a.lineno)
+    return n
 
 
 # ------------------------------------------------------------------ TROTTER-order
